@@ -660,7 +660,10 @@ def parse_grid(grid_data, parseAll=True):
         version = Version(ver_match.group(1))
 
         # Now parse the grid of the grid accordingly
-        g = hs_grid[version].parseString(grid_data, parseAll=parseAll)[0]
+        # parseWithTabs: a TAB is a character of the text like any other
+        # (pyparsing would otherwise replace it by blanks before parsing)
+        g = hs_grid[version].parseWithTabs().parseString(
+            grid_data, parseAll=parseAll)[0]
         return g
     except pp.ParseException as pe:
         LOG.debug('Failing grid: %r', grid_data)
@@ -679,7 +682,8 @@ def parse_scalar(scalar_data, version):
     Parse a Project Haystack scalar in ZINC format.
     """
     try:
-        return hs_scalar[version].parseString(scalar_data, parseAll=True)[0]
+        return hs_scalar[version].parseWithTabs().parseString(
+            scalar_data, parseAll=True)[0]
     except pp.ParseException as pe:
         # Raise a new exception with the appropriate line number.
         raise ZincParseException(
